@@ -31,13 +31,13 @@ pub struct Cx<'tcx> {
 
 impl<'tcx> Cx<'tcx> {
     pub fn path(&self, did: DefId) -> String {
-        ty::print::with_no_trimmed_paths!(self.tcx.def_path_str(did))
+        ty::print::with_no_visible_paths!(ty::print::with_no_trimmed_paths!(self.tcx.def_path_str(did)))
     }
     pub fn path_args(&self, did: DefId, args: ty::GenericArgsRef<'tcx>) -> String {
-        ty::print::with_no_trimmed_paths!(self.tcx.def_path_str_with_args(did, args))
+        ty::print::with_no_visible_paths!(ty::print::with_no_trimmed_paths!(self.tcx.def_path_str_with_args(did, args)))
     }
     pub fn ty_str(&self, t: Ty<'tcx>) -> String {
-        ty::print::with_no_trimmed_paths!(format!("{}", t))
+        ty::print::with_no_visible_paths!(ty::print::with_no_trimmed_paths!(format!("{}", t)))
     }
     pub fn ty_json(&self, t: Ty<'tcx>) -> J {
         match t.kind() {
@@ -298,6 +298,7 @@ impl<'tcx> Cx<'tcx> {
                 }
             }
         }
+        v.push(("hir", hirdump::dump_body(self, ldid)));
         Some(J::obj(v))
     }
 }
